@@ -7,9 +7,9 @@ package c05
 
 import (
 	"encoding/json"
-	"math"
 	"fmt"
 	"io"
+	"math"
 	"net/http"
 	"os"
 	"path/filepath"
@@ -64,6 +64,8 @@ type Req struct {
 	P     string `json:"p"`
 	Token string `json:"token"`
 	Hdr   string `json:"hdr,omitempty"` // value of X-Api (header-constrained routes)
+	// HdrTwice: X-Api is sent three times (value, value, "trace").
+	HdrTwice bool `json:"hdr_repeated,omitempty"`
 	// Scratch: the first handler of the route notes the request's token in the
 	// request's own parameter map (Params() hands out the map of this request).
 	Scratch bool `json:"scratch,omitempty"`
@@ -292,6 +294,12 @@ func serve(f *flamego.Flame, q Req) (r resp) {
 	h.Set("X-Token", q.Token)
 	if q.Hdr != "" {
 		h.Set("X-Api", q.Hdr)
+		if q.HdrTwice {
+			// the field sent three times (how several values are read is the
+			// matcher's business; alone or under load it reads them alike)
+			h.Add("X-Api", q.Hdr)
+			h.Add("X-Api", "trace")
+		}
 	}
 	if q.Before != "" {
 		h.Set("X-Before", q.Before)
@@ -496,6 +504,7 @@ func genReq(t *rapid.T, n int) Req {
 	case 9:
 		q.P = "/api/" + s()
 		q.Hdr = []string{"", "v1", "v2"}[rapid.IntRange(0, 2).Draw(t, "h")]
+		q.HdrTwice = q.Hdr != "" && rapid.Bool().Draw(t, "htwice")
 	case 10:
 		q.P = "/multi/" + s()
 		q.M = []string{"GET", "POST", "PUT"}[rapid.IntRange(0, 2).Draw(t, "mm")]
